@@ -10,6 +10,7 @@ import (
 	"fmt"
 	"math"
 	"os"
+	"sort"
 	"strings"
 	"sync/atomic"
 	"time"
@@ -167,6 +168,13 @@ type hist struct {
 	// nothing stored) while writer B commits r+2 and returns: reads at the reported revision r in that
 	// window, and again after A has finished
 	window bool
+	// borders: when set the engine reports several partitions — the scanned interval cut at these internal keys
+	// (lib.Wrap{Partitions} over the engine, pieces listed in reverse when shuffle is set; on the engine kind
+	// "tikv" in the thorough tier the mock cluster is really split there)
+	borders [][]byte
+	shuffle bool
+	// allRevs: read at every revision from the base to the current one
+	allRevs bool
 }
 
 func genHist(r *lib.Rand) hist {
@@ -186,6 +194,26 @@ func genHist(r *lib.Rand) hist {
 	h.ops1 = lib.RSGenOps(r, keys, st, &next, 4+r.Intn(14), mc)
 	h.ops2 = lib.RSGenOps(r, keys, st, &next, r.Intn(7), mc)
 	h.window = r.Chance(1, 3)
+	if r.Chance(1, 4) { // a partitioned engine: one or two borders, inside the versions of a key or between keys
+		nb := 1 + r.Intn(2)
+		for i := 0; i < nb; i++ {
+			k := keys[r.Intn(len(keys))]
+			switch r.Intn(3) {
+			case 0:
+				h.borders = append(h.borders, cd.EncodeObjectKey([]byte(k+"%"), 0)) // between keys
+			default:
+				h.borders = append(h.borders, cd.EncodeObjectKey([]byte(k), uint64(lib.RSBaseRev+1+r.Intn(len(h.ops1)+len(h.ops2)+1))))
+			}
+		}
+		sort.Slice(h.borders, func(i, j int) bool { return bytes.Compare(h.borders[i], h.borders[j]) < 0 })
+		for i := 1; i < len(h.borders); i++ {
+			if bytes.Equal(h.borders[i], h.borders[i-1]) {
+				h.borders = h.borders[:i]
+				break
+			}
+		}
+		h.shuffle = r.Bool()
+	}
 	switch r.Intn(6) {
 	case 0:
 		h.compact = math.MaxUint64 // none
@@ -205,6 +233,12 @@ func genReads(r *lib.Rand, h hist, ops []lib.RSOp, cur uint64, quick bool) []rea
 	}
 	if r.Chance(1, 4) {
 		revs = append(revs, cur+1+uint64(r.Intn(3))) // not yet readable: model agreement only
+	}
+	if h.allRevs {
+		revs = []uint64{0}
+		for x := uint64(lib.RSBaseRev); x <= cur; x++ {
+			revs = append(revs, x)
+		}
 	}
 	bounds := lib.RSBoundPool(h.keys)
 	if h.nul {
@@ -256,6 +290,12 @@ func genReads(r *lib.Rand, h hist, ops []lib.RSOp, cur uint64, quick bool) []rea
 			}
 			for _, j := range p[:nlim] {
 				reads = append(reads, read{Kind: "list", A: a, B: b, Rev: rev, Limit: limits[j]})
+			}
+			if len(h.borders) > 0 { // the partitioned scan is only used without a limit; Count reads at cur only
+				reads = append(reads, read{Kind: "list", A: a, B: b, Rev: rev, Limit: 0})
+				if i < 2 {
+					reads = append(reads, read{Kind: "stream", A: a, B: b, Rev: rev})
+				}
 			}
 			if r.Chance(1, 30) {
 				reads = append(reads, read{Kind: "list", A: a, B: b, Rev: rev, Limit: -1})
@@ -312,6 +352,49 @@ func (ph phase) coq() string {
 	return lib.App("mk_phase", lib.List(os), lib.N(ph.floor), lib.CoqDump(ph.dump), lib.N(ph.cur), "["+strings.Join(xs, ";\n  ")+"]")
 }
 
+func cp(b []byte) []byte { return append([]byte{}, b...) }
+
+// pcall is one recorded GetPartitions answer of the engine
+type pcall struct {
+	start, end []byte
+	parts      []storage.Partition
+}
+
+func coqCalls(calls []pcall) string {
+	xs := make([]string, len(calls))
+	for i, c := range calls {
+		ps := make([]string, len(c.parts))
+		for j, p := range c.parts {
+			ps[j] = lib.Pair(lib.Bytes(p.Start), lib.Bytes(p.End))
+		}
+		xs[i] = "(" + lib.Bytes(c.start) + ", " + lib.Bytes(c.end) + ", " + lib.List(ps) + ")"
+	}
+	return lib.List(xs)
+}
+
+// cut: the interval [start, end) cut at the borders strictly inside it (one piece when start >= end)
+func cut(borders [][]byte, reverse bool, start, end []byte) []storage.Partition {
+	pts := [][]byte{start}
+	if bytes.Compare(start, end) < 0 {
+		for _, b := range borders {
+			if bytes.Compare(start, b) < 0 && bytes.Compare(b, end) < 0 {
+				pts = append(pts, b)
+			}
+		}
+	}
+	pts = append(pts, end)
+	n := len(pts) - 1
+	ps := make([]storage.Partition, n)
+	for i := 0; i < n; i++ {
+		j := i
+		if reverse {
+			j = n - 1 - i
+		}
+		ps[j] = storage.Partition{Start: pts[i], End: pts[i+1]}
+	}
+	return ps
+}
+
 // gate holds one goroutine at its first BeginBatchWrite
 type gate struct {
 	goid    int64
@@ -322,7 +405,15 @@ type gate struct {
 func runHist(engine, scratch string, h hist, rr *lib.Rand, kind string, quick, full bool) (res caseOut) {
 	res.outcomes = map[string]int{}
 	var kv storage.KvStorage
-	inner, closer, err := lib.NewEngine(engine, scratch)
+	realSplit := engine == lib.EngTiKV && len(h.borders) > 0
+	var inner storage.KvStorage
+	var closer func()
+	var err error
+	if realSplit {
+		inner, closer, err = lib.NewTiKVSplit(h.borders...)
+	} else {
+		inner, closer, err = lib.NewEngine(engine, scratch)
+	}
 	if err != nil {
 		res.failure = &lib.ImplFailure{What: "engine open: " + err.Error()}
 		return
@@ -330,20 +421,58 @@ func runHist(engine, scratch string, h hist, rr *lib.Rand, kind string, quick, f
 	defer closer()
 	kv = inner
 	g := &gate{parked: make(chan struct{}, 1), release: make(chan struct{})}
-	if h.window {
-		kv = &lib.Wrap{KvStorage: inner, Before: func(k string, key []byte) error {
-			if k == "batch" && atomic.LoadInt64(&g.goid) == lib.GoID() {
-				atomic.StoreInt64(&g.goid, 0)
-				g.parked <- struct{}{}
-				<-g.release
+	var calls []pcall
+	if h.window || len(h.borders) > 0 {
+		w := &lib.Wrap{KvStorage: inner}
+		if h.window {
+			w.Before = func(k string, key []byte) error {
+				if k == "batch" && atomic.LoadInt64(&g.goid) == lib.GoID() {
+					atomic.StoreInt64(&g.goid, 0)
+					g.parked <- struct{}{}
+					<-g.release
+				}
+				return nil
 			}
-			return nil
-		}}
+		}
+		if len(h.borders) > 0 {
+			w.Partitions = func(start, end []byte) []storage.Partition {
+				var res []storage.Partition
+				if realSplit {
+					res, _ = inner.GetPartitions(context.Background(), start, end)
+				} else {
+					res = cut(h.borders, h.shuffle, start, end)
+				}
+				known := false
+				for _, c := range calls {
+					if bytes.Equal(c.start, start) && bytes.Equal(c.end, end) {
+						known = true
+					}
+				}
+				out := make([]storage.Partition, len(res)) // the scanner sorts and rewrites the slice in place
+				rec := make([]storage.Partition, len(res))
+				for i, x := range res {
+					out[i] = storage.Partition{Start: cp(x.Start), End: cp(x.End)}
+					rec[i] = storage.Partition{Start: cp(x.Start), End: cp(x.End)}
+				}
+				if !known {
+					calls = append(calls, pcall{cp(start), cp(end), rec})
+				}
+				return out
+			}
+		}
+		kv = w
 	}
 	n := lib.NewRSNode(kv, "c03")
 	defer lib.RSRetire()
 	b := n.B
 	jsonCase := map[string]interface{}{"engine": engine, "keys": h.keys, "window": h.window}
+	if len(h.borders) > 0 {
+		var hb []string
+		for _, x := range h.borders {
+			hb = append(hb, lib.Q(x))
+		}
+		jsonCase["partition_borders"], jsonCase["partitions_listed_in_reverse"], jsonCase["real_tikv_regions"] = hb, h.shuffle, realSplit
+	}
 	fail := func(what string) caseOut {
 		res.failure = &lib.ImplFailure{What: what, Case: jsonCase}
 		return res
@@ -498,12 +627,21 @@ func runHist(engine, scratch string, h hist, rr *lib.Rand, kind string, quick, f
 		}
 		jops = append(jops, jp)
 	}
-	coq := lib.App("mk_c03", lib.Bytes(lib.RSCompactKey), "true", "[\n "+strings.Join(ps, ";\n ")+"]")
+	if len(h.borders) > 0 && len(calls) == 0 {
+		return fail("partitioned engine: GetPartitions was never called")
+	}
+	coq := lib.App("mk_c03", lib.Bytes(lib.RSCompactKey), "true", coqCalls(calls), "[\n "+strings.Join(ps, ";\n ")+"]")
 	jsonCase["phases"] = jops
 	jsonCase["compact_request"] = h.compact
 	res.c = lib.Case{Coq: coq, JSON: jsonCase, Kind: kind + "/" + engine, Trivial: okw < 2 || found == 0}
 	if h.window {
 		res.c.Kind += "/window"
+	}
+	if len(h.borders) > 0 {
+		res.c.Kind += "/partitioned"
+		for _, c := range calls {
+			res.outcomes[fmt.Sprintf("engine-pieces-%d", len(c.parts))]++
+		}
 	}
 	return
 }
@@ -534,6 +672,18 @@ func corpus() []hist {
 		{keys: []string{"/r/a", "/r/ab", "/r/b"}, ops1: []lib.RSOp{c("/r/a", x), c("/r/ab", x), c("/r/b", x), u("/r/ab", []byte("x2"), 102)},
 			ops2: []lib.RSOp{d("/r/a", 0), d("/r/ab", 0), c("/r/ab", []byte("again")), d("/r/b", 103), c("/r/b", x), d("/r/b", 0)}, compact: math.MaxUint64, window: true},
 		{keys: []string{"/r/a", "/r/b"}, ops1: []lib.RSOp{c("/r/a", x), c("/r/b", x)}, ops2: []lib.RSOp{d("/r/a", 0)}, compact: 0, window: true},
+		// a partitioned engine (seeded change C03-4): /r/a/b has three versions (103, 105, 106), one border at its MIDDLE
+		// version, one between keys; every read path at every revision — the partitioned paths (unlimited List, Count,
+		// ListByStream) must agree with the single-worker paths (Get, limited List) on the same snapshot
+		{keys: []string{"/r/a", "/r/a-b", "/r/a/b", "/r/ab"},
+			ops1: []lib.RSOp{c("/r/a", x), c("/r/a-b", x), c("/r/a/b", []byte("1")), c("/r/ab", x), u("/r/a/b", []byte("2"), 103), u("/r/a/b", []byte("3"), 105)},
+			ops2: []lib.RSOp{u("/r/a", []byte("x2"), 101)}, compact: math.MaxUint64, allRevs: true,
+			borders: [][]byte{cd.EncodeObjectKey([]byte("/r/a/b"), 105), cd.EncodeObjectKey([]byte("/r/aa"), 0)}},
+		// the same, pieces listed out of key order, border between two versions (synthetic revision 104), compaction
+		{keys: []string{"/r/a", "/r/a-b", "/r/a/b", "/r/ab"},
+			ops1: []lib.RSOp{c("/r/a", x), c("/r/a-b", x), c("/r/a/b", []byte("1")), c("/r/ab", x), u("/r/a/b", []byte("2"), 103), u("/r/a/b", []byte("3"), 105)},
+			ops2: []lib.RSOp{d("/r/a-b", 0)}, compact: 104, allRevs: true, shuffle: true, window: true,
+			borders: [][]byte{cd.EncodeObjectKey([]byte("/r/a/b"), 104)}},
 		// delete, compaction above the delete, re-creation
 		{keys: []string{"/r/a", "/r/b"}, ops1: []lib.RSOp{c("/r/a", x), c("/r/b", x), d("/r/a", 101), u("/r/b", []byte("b2"), 102)}, ops2: []lib.RSOp{c("/r/a", []byte("back")), d("/r/b", 0)}, compact: 104},
 	}
